@@ -207,9 +207,9 @@ type jgen struct {
 	// aliasAllEmbeds: every allOf member given by $ref refers to an alias component (one or two steps from the object)
 	aliasAllEmbeds bool
 	cycle          int
-	noNullAny   bool
-	rng       *rand.Rand
-	next      int
+	noNullAny      bool
+	rng            *rand.Rand
+	next           int
 }
 
 func (g *jgen) prim() *JS {
